@@ -15,7 +15,7 @@ typedef struct {
 	int is_list;
 } tnode_t;
 
-#define MAXN 400
+#define MAXN 200100
 static tnode_t *node[MAXN];
 static int nn, misaligned;
 static int L[MAXN], R[MAXN];
